@@ -17,19 +17,6 @@ Qed.
 Lemma name_eqb_refl a : name_eqb a a = true.
 Proof. destruct (name_eqb_spec a a); congruence. Qed.
 
-Definition held (c : pc) : option name :=
-  match c with
-  | PWrite t _ _ _ => Some t | PClose t _ _ => Some t | PChmod t _ => Some t
-  | PPublish t => Some t | PUnlink t _ => Some t
-  | _ => None
-  end.
-
-Definition pre (c : pc) : bool :=
-  match c with
-  | PWrite _ _ _ _ => true | PClose _ _ _ => true | PChmod _ _ => true | PPublish _ => true
-  | _ => false
-  end.
-
 (* per-process part of the invariant *)
 Definition pinv_pc (f : fs) (j : job) (c : pc) : Prop :=
   match c with
